@@ -198,6 +198,40 @@ func (ft *FT) callWrites(c *ssa.CallCommon) ([]string, bool) {
 	return ft.callWritesSeen(c, map[*ssa.Function]bool{})
 }
 
+// declaredFrameKeys: the heap keys named in the modifies clause of a statically known callee that has a body and a
+// (non-trusted) contract with a modifies clause; ok is false when there is no such clause or it cannot be resolved.
+func (ft *FT) declaredFrameKeys(c *ssa.CallCommon) (map[string]bool, bool) {
+	if _, ok := c.Value.(*ssa.Builtin); ok {
+		return nil, false
+	}
+	name, callee, _ := ft.callName(c)
+	if ft.eng.models[name] != nil || callee == nil || callee.Blocks == nil {
+		return nil, false
+	}
+	con := ft.eng.cons.Funcs[name]
+	if con == nil || !con.HasMod || con.Trusted {
+		return nil, false
+	}
+	out := map[string]bool{}
+	if len(con.Modifies) == 0 {
+		return out, true
+	}
+	dummy := make([]Term, 0, 8)
+	n := c.Signature().Params().Len() + 1
+	for i := 0; i < n; i++ {
+		dummy = append(dummy, "0")
+	}
+	ctx := ft.calleeCtx(callee, nil, c, dummy, ft.entry, ft.entry)
+	targets, all, err := ft.modTargets(ctx, con.Modifies)
+	if err != nil || all {
+		return nil, false
+	}
+	for _, t := range targets {
+		out[t.key] = true
+	}
+	return out, true
+}
+
 func (ft *FT) callWritesSeen(c *ssa.CallCommon, seen map[*ssa.Function]bool) ([]string, bool) {
 	if b, ok := c.Value.(*ssa.Builtin); ok {
 		switch b.Name() {
